@@ -1,6 +1,8 @@
 import UPVerif.Core.Sexp
 import UPVerif.Drv.C33
 import UPVerif.Drv.Den
+import UPVerif.Drv.C27
+import UPVerif.Drv.C37
 import UPVerif.Drv.C19
 import UPVerif.Drv.C03
 import UPVerif.Drv.C21
@@ -69,6 +71,8 @@ def handlers : List (String × (Sexp → Sexp)) := [
   ("C21", Drv.C21.handle),
   ("C03", Drv.C03.handle),
   ("C19", Drv.C19.handle),
+  ("C37", Drv.C37.handle),
+  ("C27", Drv.C27.handle),
   ("ECHO", Drv.Den.handleEcho),
   ("DEN", Drv.Den.handleDen)
 ]
